@@ -1,0 +1,10 @@
+//go:build !verif
+
+// Package verifhook provides named schedule points for the
+// verification harness. Without the build tag "verif" a point is an
+// empty function that the compiler inlines away.
+package verifhook
+
+// Point marks a place where the verification harness may delay the
+// calling goroutine. It does nothing in normal builds.
+func Point(name string) {}
